@@ -342,7 +342,7 @@ def gen_request(rng, w, p, names):
     elif cmd in ("restart", "stop", "start"):
         props = {"name": name, "waiting": waiting}
         if rng.random() < p.get("patterns", 0.0):
-            props["name"] = rng.choice(["w*", "w[12]", "*"])       # several watchers started / stopped together
+            props["name"] = rng.choice(["w*", "w[12]", "w[23]", "*"])       # several watchers started / stopped together
         if rng.random() < 0.2:
             props.pop("name")
             props.pop("waiting")
